@@ -442,6 +442,9 @@ def _vector(draw, allow_long=False):
 
 
 def _dims(draw):
+    if draw(st.integers(0, 11)) == 0:
+        # MANY lanes (items): around the round numbers at which implementations switch strategy
+        return draw(st.integers(1, 4)), draw(st.sampled_from([63, 64, 65, 66, 100, 128, 129, 257, 300]))
     return draw(st.integers(1, 5)), draw(st.integers(1, 8))
 
 
